@@ -30,7 +30,8 @@ func TestMain(m *testing.M) {
 			"subscribe requests are confirmed once per channel with the connection's running subscription count; unsubscribe requests once per channel actually left; CHANNELS / NUMSUB / NUMPAT equal the table. A message is declared missing only after 5 s on an otherwise idle server. "+
 			"A case is one history; non-trivial = at least two subscribers with different subscription sets and a publish after an unsubscribe, or a burst of ≥ 50; distinct = FNV-64 of the history.",
 		"TCP subscribers only (the embedded subscriber API is not exercised)",
-		"reordering inside a burst depends on the Go scheduler: the check detects it when it happens; it never requires that a non-deterministic effect shows")
+		"reordering inside a burst depends on the Go scheduler: the check detects it when it happens; it never requires that a non-deterministic effect shows",
+		"floods of 16 000 one-kilobyte messages published while no subscriber reads for 150 ms (publisher and subscribers on goroutines of their own); patterns without a wildcard whose text equals a channel name")
 	common.Main(m, rec)
 }
 
